@@ -19,6 +19,7 @@ def run(run, model):
     run.do(rec.none_is_a_value, model)
     run.do(rec.unknown_stops, model)
     run.do(rec.speculative_visit, model)
+    run.do(rec.placeholder_identity, model, "C07.placeholder-identity")
     run.do(msg.no_nondeterminism, model, "C07.no-history")
     run.do(rec.comprehension_env, model, "C07.comprehension-env")
     run.do(c09.dispatch_table, model, "C07.default-error")
@@ -29,6 +30,13 @@ def run(run, model):
     run.do(fwd.forwarding, model, "C07.forwarded", ("condition", "description", "location", "error"))
     run.do(rec.lambda_location, model)
     run.do(rec.all_trace, model, "C07.all-trace")
+    # the message (or the user's error factory) is built from the arguments of the call the contract was evaluated with
+    from . import gates, loops
+    for role, ck in gates.checkers(model).items():
+        for kind, depth in (("PRE", 2), ("POST", 1)):
+            h = loops.helper_of(model, ck, kind)
+            if h is not None:
+                run.do(loops.verdict_rule, model, "C07.error-of-failed", h[0], h[1], h[2], depth)
     run.minimum("C07.lazy", 14)
     run.minimum("C07.supported-forms", 22)
     run.minimum("C07.assembly", 24)
